@@ -149,10 +149,9 @@ def run(ctx):
         for path, aln in ((fr, A), (ft, T), (fr2, R2)):
             # the two alignments may come in any of the three formats (the comparison is of alignments, not of files); names longer than the block
             # formats keep (255 bytes) stay in FASTA
-            # (names made of the words the format sniffer looks for stay in FASTA too: this oracle's own Clustal/MSF renderer pads names with a
-            # single blank at times, and "CLUSTAL" + " " + a row starting with W or O is then a Clustal header line for kalign_read_input --
-            # a property of that presentation, not of the comparison)
-            if max(len(n) for n, _ in aln) > 200 or rng.random() < 0.4 or any(k in n for n, _ in aln for k in ("CLUSTAL", "MSF", "multiple", "PileUp")):
+            # (names made of the words the format sniffer looks for, and residues spelling them, are fine in every format: the first line of a
+            # block-format file decides its format, repaired in 8e76171)
+            if max(len(n) for n, _ in aln) > 200 or rng.random() < 0.4:
                 open(path, "w").write(gen.fasta_text(aln))
             else:
                 render = rng.choice([c04.render_clustal, c04.render_msf])
